@@ -106,13 +106,20 @@ func (e editor) leaf(from *Selection, to *Selection, m meta.Leafable, new bool, 
 	}
 
 	if hnd.Val != nil {
+		r.Selection = to
+		r.From = from
+		if _, isCaseMember := m.Parent().(*meta.ChoiceCase); isCaseMember {
+			// a value that is going to be refused does not get to clear the other case
+			r.Write = true
+			if proceed, err := to.Constraints.CheckFieldPreConstraints(&r, &hnd); !proceed || err != nil {
+				return err
+			}
+		}
 		// If there is a different choice selected, need to clear it
 		// first. whatever the strategy, one case of a choice holds data
 		if err := e.clearOnDifferentChoiceCase(to, m); err != nil {
 			return err
 		}
-		r.Selection = to
-		r.From = from
 		if err := to.set(&r, &hnd); err != nil {
 			return err
 		}
